@@ -458,12 +458,6 @@ package values
 //@ ensures same: result == out
 
 // ---- Convert (C01, C02): no conversion request panics; failures are returned errors ------
-//@ func values.conversionError
-//@ props C01
-//@ panics nothing
-//@ assigns nothing
-//@ ensures nonnil: result != nil
-
 //@ func values.ParseDate
 //@ unverified
 //@ props C01
